@@ -53,6 +53,42 @@ func (c *Ctx) Guarded(fn *ssa.Function, sinkDesc string, sel SinkSel, guards ...
 	}
 }
 
+// GuardedUnless (rule G): like Guarded, but a path that passes an instruction selected by unless is fine without the
+// guards ("enter the step of round r only when the node is in round r — or has just been moved there").
+func (c *Ctx) GuardedUnless(fn *ssa.Function, sinkDesc string, sel SinkSel, unlessDesc string, unless SinkSel, guards ...Guard) {
+	if fn == nil {
+		return
+	}
+	sinks := findInstrs(fn, sel)
+	for _, g := range guards {
+		key := fnName(fn) + "/" + sinkDesc + " <= " + g.Desc + ", or after " + unlessDesc
+		if len(sinks) == 0 {
+			c.Unres("G", key, "no sink matching '"+sinkDesc+"' found in "+fnName(fn)+" (anchor moved?)")
+			continue
+		}
+		sites := c.P.guardEdges(fn, g)
+		rm := map[edge]bool{}
+		var gd []string
+		for _, s := range sites {
+			rm[s.Pass] = true
+			gd = append(gd, s.Desc)
+		}
+		isSink := map[ssa.Instruction]bool{}
+		for _, s := range sinks {
+			isSink[s] = true
+		}
+		w := &Walker{P: c.P, Removed: rm, Stop: unless}
+		hit, found := w.Reach(fn, fn.Blocks[0], 0, func(in ssa.Instruction) bool { return isSink[in] })
+		if found {
+			c.Bad("G", key, instrPos(hit.Instr), len(sinks)+len(sites), fmt.Sprintf("sink %s at %s is reachable without passing guard '%s' and without %s (guards seen: %s); path %s",
+				describeInstr(hit.Instr), c.P.Pos(instrPos(hit.Instr)), g.Desc, unlessDesc, strings.Join(gd, " | "), c.P.pathStr(hit.Path)))
+		} else {
+			c.OK("G", key, instrPos(sinks[0]), len(sinks)+len(sites), fmt.Sprintf("%d sink(s) only through: %s, or after %s", len(sinks), strings.Join(gd, " | "), unlessDesc))
+			c.recordFlipSites(key, sites)
+		}
+	}
+}
+
 // GuardedBetween (rule G): on every path that starts right after an instruction selected by from and reaches one selected
 // by sink without passing one selected by stop, each guard has been passed. Used for loops: "from receiving a request,
 // the loop head is reached again without having armed the timer only when the request was tested to be stale".
